@@ -1,6 +1,6 @@
 /-
   Proofs.ParseWF — what the Spec's parser guarantees about captures: the parsed items are well-formed
-  (`CapturesWF`), provided no `%n` refers to a position capture `()`.
+  (`CapturesWF`).
 -/
 import GoluaVerif.Proofs.PatRefineSpec
 namespace GoluaVerif.Model.PatMatch
@@ -19,7 +19,7 @@ def WFitem (sh : Shapes) : Item → Prop
   | .open n => 1 ≤ n ∧ n < 10 ∧ sh n = .unset
   | .close n => 1 ≤ n ∧ n < 10 ∧ sh n = .opened
   | .pos n => 1 ≤ n ∧ n < 10 ∧ sh n = .unset
-  | .backref n => 1 ≤ n ∧ n < 10 ∧ sh n = .closed
+  | .backref n => 1 ≤ n ∧ n < 10 ∧ (sh n = .closed ∨ sh n = .position)
   | _ => True
 
 theorem shapeAfter_cons (sh : Shapes) (it : Item) (r : List Item) :
@@ -316,17 +316,13 @@ theorem PInv.closeCap {st : PState} (h : PInv st) (n : Nat) (stk : List Nat) (hs
     · subst hkn; rw [set_same] at hh; cases hh
     · rw [set_other _ _ _ _ hkn] at hh; exact List.mem_cons_of_mem _ (h.pos_mem k hh)
 
-theorem PInv.backrefItem {st : PState} (h : PInv st) (n : Nat) (h1 : 1 ≤ n) (h2 : n ≤ st.ncap) (h3 : n ∉ st.stack)
-    (hnp : Item.pos n ∉ st.items) : PInv { st with items := .backref n :: st.items } := by
+theorem PInv.backrefItem {st : PState} (h : PInv st) (n : Nat) (h1 : 1 ≤ n) (h2 : n ≤ st.ncap) (h3 : n ∉ st.stack) :
+    PInv { st with items := .backref n :: st.items } := by
   have e : shapeAfter sh0 (Item.backref n :: st.items).reverse = shapeAfter sh0 st.items.reverse := by
     rw [List.reverse_cons, shapeAfter_snoc]; rfl
-  have hcl : shapeAfter sh0 st.items.reverse n = .closed := by
-    rcases h.done n h1 h2 h3 with hc | hp
-    · exact hc
-    · exact absurd (h.pos_mem n hp) hnp
   refine ⟨?_, ?_, ?_, ?_, ?_, h.ncap_le, h.stack_range, ?_, h.nodup⟩
   · show WFfrom sh0 (Item.backref n :: st.items).reverse
-    rw [List.reverse_cons, WFfrom_snoc]; exact ⟨h.wf, h1, by have := h.ncap_le; omega, hcl⟩
+    rw [List.reverse_cons, WFfrom_snoc]; exact ⟨h.wf, h1, by have := h.ncap_le; omega, h.done n h1 h2 h3⟩
   · intro k; show shapeAfter sh0 (Item.backref n :: st.items).reverse k = _ ↔ _; rw [e]; exact h.opened k
   · intro k hk; show shapeAfter sh0 (Item.backref n :: st.items).reverse k = _; rw [e]; exact h.beyond k hk
   · show shapeAfter sh0 (Item.backref n :: st.items).reverse 0 = _; rw [e]; exact h.zero
@@ -336,19 +332,16 @@ theorem PInv.backrefItem {st : PState} (h : PInv st) (n : Nat) (h1 : 1 ≤ n) (h
     have hh : shapeAfter sh0 (Item.backref n :: st.items).reverse k = .position := hk
     rw [e] at hh; exact List.mem_cons_of_mem _ (h.pos_mem k hh)
 
-/-- no `%n` refers to a position capture -/
-def NoPosBackref (items : List Item) : Prop := ∀ n, Item.backref n ∈ items → Item.pos n ∉ items
-
 theorem parseItems_inv : ∀ (fuel : Nat) (l : List UInt8) (st stf : PState),
-    LuaPattern.parseItems fuel l st = .ok stf → PInv st → NoPosBackref stf.items → PInv stf ∧ stf.stack = [] := by
+    LuaPattern.parseItems fuel l st = .ok stf → PInv st → PInv stf ∧ stf.stack = [] := by
   intro fuel
   induction fuel with
   | zero => intro l st stf h; rw [LuaPattern.parseItems.eq_1] at h; cases h
   | succ f ih =>
-    intro l st stf h hinv hnp
+    intro l st stf h hinv
     have plain : ∀ (l' : List UInt8) (it : Item), (∀ sh, shapeStep sh it = sh) → (∀ sh, WFitem sh it) →
         LuaPattern.parseItems f l' { st with items := it :: st.items } = .ok stf → PInv stf ∧ stf.stack = [] :=
-      fun l' it hs hw hk => ih l' _ stf hk (hinv.plain it hs hw) hnp
+      fun l' it hs hw hk => ih l' _ stf hk (hinv.plain it hs hw)
     cases l with
     | nil =>
       rw [LuaPattern.parseItems.eq_2] at h
@@ -378,13 +371,13 @@ theorem parseItems_inv : ∀ (fuel : Nat) (l : List UInt8) (st stf : PState),
               by_cases hmaxc : st.ncap + 1 > LuaPattern.maxCaptures
               · simp [hmaxc] at h
               · simp only [hmaxc, if_false] at h
-                exact ih _ _ stf h (hinv.posCap (by unfold LuaPattern.maxCaptures at hmaxc; omega)) hnp
+                exact ih _ _ stf h (hinv.posCap (by unfold LuaPattern.maxCaptures at hmaxc; omega))
             · rw [LuaPattern.parseItems.eq_6 _ _ _ (by intro e; cases e)
                 (by intro rest' e; injection e with e1 _; exact hb2 e1)] at h
               by_cases hmaxc : st.ncap + 1 > LuaPattern.maxCaptures
               · simp [hmaxc] at h
               · simp only [hmaxc, if_false] at h
-                exact ih _ _ stf h (hinv.openCap (by unfold LuaPattern.maxCaptures at hmaxc; omega)) hnp
+                exact ih _ _ stf h (hinv.openCap (by unfold LuaPattern.maxCaptures at hmaxc; omega))
         · by_cases h41 : a = 41
           · subst h41
             rw [LuaPattern.parseItems.eq_7] at h
@@ -393,7 +386,7 @@ theorem parseItems_inv : ∀ (fuel : Nat) (l : List UInt8) (st stf : PState),
             | cons n stk =>
               rw [hstk] at h
               simp only at h
-              exact ih _ _ stf h (hinv.closeCap n stk hstk) hnp
+              exact ih _ _ stf h (hinv.closeCap n stk hstk)
           · by_cases h37 : a = 37
             · subst h37
               cases r with
@@ -434,10 +427,6 @@ theorem parseItems_inv : ∀ (fuel : Nat) (l : List UInt8) (st stf : PState),
                     · by_cases hbad : (d - 48).toNat = 0 ∨ (d - 48).toNat > st.ncap ∨ st.stack.contains (d - 48).toNat = true
                       · rw [if_pos hbad] at h; cases h
                       · rw [if_neg hbad] at h
-                        have hmono := parseItems_mono f _ _ stf h
-                        have hbr : Item.backref (d - 48).toNat ∈ stf.items := hmono _ List.mem_cons_self
-                        have hnpos : Item.pos (d - 48).toNat ∉ st.items := fun hm =>
-                          hnp _ hbr (hmono _ (List.mem_cons_of_mem _ hm))
                         have h1 : 1 ≤ (d - 48).toNat := by
                           have : ¬ ((d - 48).toNat = 0) := fun e => hbad (Or.inl e)
                           omega
@@ -448,7 +437,7 @@ theorem parseItems_inv : ∀ (fuel : Nat) (l : List UInt8) (st stf : PState),
                           intro hm
                           apply hbad; right; right
                           simp [List.contains_eq_mem, hm]
-                        exact ih _ _ stf h (hinv.backrefItem _ h1 h2 h3 hnpos) hnp
+                        exact ih _ _ stf h (hinv.backrefItem _ h1 h2 h3)
                     · split at h
                       · cases h
                       · (refine plain _ _ ?_ ?_ h <;> intro sh <;> first | rfl | exact trivial)
@@ -463,9 +452,8 @@ theorem parseItems_inv : ∀ (fuel : Nat) (l : List UInt8) (st stf : PState),
               · cases h
               · (refine plain _ _ ?_ ?_ h <;> intro sh <;> first | rfl | exact trivial)
 
-/-- PARSE WF: every pattern the Spec parses, in which no `%n` refers to a position capture, has well-formed captures -/
-theorem parse_wf (p : List UInt8) (pat : LuaPattern.Pat) (hparse : LuaPattern.parse p = .ok pat)
-    (hnp : NoPosBackref pat.items) : CapturesWF pat := by
+/-- PARSE WF: every pattern the Spec parses has well-formed captures -/
+theorem parse_wf (p : List UInt8) (pat : LuaPattern.Pat) (hparse : LuaPattern.parse p = .ok pat) : CapturesWF pat := by
   unfold LuaPattern.parse at hparse
   cases hpi : LuaPattern.parseItems ((LuaPattern.stripCaret p).2.length + 1) (LuaPattern.stripCaret p).2
       { items := [], ncap := 0, stack := [], anchorEnd := false } with
@@ -473,9 +461,7 @@ theorem parse_wf (p : List UInt8) (pat : LuaPattern.Pat) (hparse : LuaPattern.pa
   | ok stf =>
     rw [hpi] at hparse
     injection hparse with hparse; subst hparse
-    have hnp' : NoPosBackref stf.items := fun n hb hp =>
-      hnp n (List.mem_reverse.mpr hb) (List.mem_reverse.mpr hp)
-    obtain ⟨hinv, hstk⟩ := parseItems_inv _ _ _ stf hpi PInv.init hnp'
+    obtain ⟨hinv, hstk⟩ := parseItems_inv _ _ _ stf hpi PInv.init
     refine ⟨hinv.wf, fun n h1 h2 => ?_⟩
     exact hinv.done n h1 h2 (by rw [hstk]; simp)
 
